@@ -594,6 +594,8 @@ package tabular
 //@   loop#1 invariant (t.rows.arr == old(t.rows.arr) && t.rows.off == old(t.rows.off) && t.rows.cap == old(t.rows.cap)) || fresh(t.rows)
 //@   loop#1 invariant (t.columns.arr == old(t.columns.arr) && t.columns.off == old(t.columns.off) && t.columns.cap == old(t.columns.cap)) || fresh(t.columns)
 //@   loop#1 invariant [cell-callbacks-so-far] addColFires == old(addColFires) + rangeindex + 1 && addTblFires == old(addTblFires) + rangeindex + 1
+//@   call invokePropertyCallbacks#1 before assert [row-own-callbacks-at-add-time-on-the-row] arg1 == 0 && arg2 == mkiface(type[*Row], box(row)) @C13
+//@   call invokePropertyCallbacks#2 before assert [table-row-callbacks-at-add-time-on-the-row] arg1 == 0 && arg2 == mkiface(type[*Row], box(row)) @C13
 //@   call invokePropertyCallbacks#3 before assert [column-cell-callbacks-get-the-live-cell-at-add-time] arg1 == 0 && arg2 == mkiface(type[*Cell], box(&row.cells[rangeindex + 1])) @C13
 //@   call invokePropertyCallbacks#3 after ghost addColFires = addColFires + 1
 //@   call invokePropertyCallbacks#4 before assert [table-cell-callbacks-get-the-live-cell-at-add-time] arg1 == 0 && arg2 == mkiface(type[*Cell], box(&row.cells[rangeindex + 1])) @C13
@@ -659,6 +661,7 @@ package tabular
 //@   loop#1 decreases len(items) - rangeindex
 //@   loop#1 unfold chainOK(heap[valueProperty.chain], heap[valueProperty.key], heap[valueProperty.val], nil)
 //@   loop#2 invariant [header-cell-callbacks-so-far] addTblFires == old(addTblFires) + rangeindex + 1
+//@   call invokePropertyCallbacks#1 before assert [table-row-callbacks-at-add-time-on-the-header-row] arg1 == 0 && arg2 == mkiface(type[*Row], box(hr)) @C13
 //@   call invokePropertyCallbacks#3 before assert [table-cell-callbacks-get-the-live-header-cell] arg1 == 0 && arg2 == mkiface(type[*Cell], box(&hr.cells[rangeindex + 1])) @C13
 //@   call invokePropertyCallbacks#3 after ghost addTblFires = addTblFires + 1
 //@   loop#2 invariant -1 <= rangeindex && rangeindex < len(hr.cells)
